@@ -17,6 +17,8 @@ var pureCalls = map[string]bool{
 	"strings.TrimSpace": true, "uuid.NewString": true, "time.Now": true, "time.Since": true, "formatCloseMessage": true,
 	"reflect.ValueOf": true, "len": true, "append": true, "make": true, "errors.New": true, "string": true,
 	"binary.BigEndian.PutUint16": true, "copy": true, "uint16": true, "checkConnectionAckReceived": true,
+	"errorf": true, "filepath.Clean": true, "filepath.ToSlash": true, "path.Join": true, "doublestar.SplitPattern": true,
+	"doublestar.WithFilesOnly": true, "os.DirFS": true,
 }
 
 type skelCtx struct{ fset *token.FileSet }
@@ -124,7 +126,16 @@ func (c *skelCtx) stmt(s ast.Stmt, ind string) []string {
 		}
 		rs := []string{}
 		for _, r := range s.Results {
-			rs = append(rs, src(c.fset, r))
+			// only the shape of a result matters: nil, an error variable, or some expression
+			t := src(c.fset, r)
+			switch {
+			case t == "nil" || t == "err" || t == "true" || t == "false" || t == "firstErr":
+			case strings.HasSuffix(t, ")"):
+				t = "<call>"
+			default:
+				t = "<expr>"
+			}
+			rs = append(rs, t)
 		}
 		out = append(out, ".ret "+leanStr(strings.Join(rs, ", ")))
 	case *ast.IfStmt:
